@@ -71,7 +71,7 @@ def seg_rows(v, seg):
     rows = []
     try:
         ref = L.SEGMENTS[seg]
-        for (name, fref, card, cls) in ref[1]:
+        for (name, fref, card, cls) in (ref[1] if len(ref) > 1 else ()):
             dt = fref[2]
             rows.append({"name": name, "i": _idx(name), "dt": dt, "kind": kind(v, dt), "min": card[0], "max": card[1],
                          "long": fref[3], "table": fref[4], "maxlen": fref[5]})
